@@ -125,6 +125,11 @@ def replay_file(ck, path, cmp=("value",)):
         s["cmp"] = case["cmp"]
     if case.get("mode"):
         s["mode"] = case["mode"]
+    if case.get("scope_diff"):
+        import scopecheck
+        for desc, c in scopecheck.validate(ck, [s], "replay: the front end's tree against CalcScope.tla"):
+            ck.violation(desc, c)
+        return ck.finish()
     run_families(ck, [("replay", [s], cmp)])
     return ck.finish()
 
